@@ -556,3 +556,83 @@ Qed.
 
 Lemma wf_kinds_names l : wf_kinds l = true -> map k_name l = [0%N; 1%N; 2%N].
 Proof. unfold wf_kinds. intros H. apply andb_prop in H. apply lN_eqb_spec. exact (proj2 H). Qed.
+
+(* ---------- S8 in general: in a stream of ANY length the unfixed order can lose ANY frame ---------- *)
+Definition s8_sched_for (n k : nat) : list actor := repeat AP (2 * k) ++ [AP; AS 0; AS 0] ++ repeat AP (2 * (n - k)).
+
+Definition ust (n k : nat) (x : sub) : st :=
+  {| g_prog := rest PubThenRec n k; g_hist := seq 0 k; g_subs := [x] |}.
+
+Lemma run_app c a b s : run c (a ++ b) s = run c b (run c a s).
+Proof. unfold run. apply fold_left_app. Qed.
+
+(* two producer steps of the unfixed order = one whole frame *)
+Lemma unfixed_frame n k x : k < n ->
+  run unfixed_cfg [AP; AP] (ust n k x) = ust n (S k) (deliver None (Some k) x).
+Proof.
+  intros H. unfold ust, run. cbn [fold_left step g_prog]. rewrite rest_unfold by lia.
+  cbn [frame_steps app g_prog g_hist g_subs map unfixed_cfg mk c_cap]. f_equal. rewrite <- seq_snoc. reflexivity.
+Qed.
+
+Lemma repeat_two_S j : repeat AP (2 * S j) = [AP; AP] ++ repeat AP (2 * j).
+Proof. replace (2 * S j) with (S (S (2 * j))) by lia. reflexivity. Qed.
+
+(* frames k .. k+j-1 pass a subscriber that is not subscribed yet *)
+Lemma unfixed_frames_unsub n : forall j k x, k + j <= n -> s_live x = None ->
+  run unfixed_cfg (repeat AP (2 * j)) (ust n k x) = ust n (k + j) x.
+Proof.
+  induction j as [|j IH]; intros k x H Hl.
+  - replace (k + 0) with k by lia. reflexivity.
+  - rewrite repeat_two_S, run_app, unfixed_frame by lia.
+    assert (deliver None (Some k) x = x) as E by (unfold deliver; rewrite Hl; reflexivity).
+    rewrite E, IH by (assumption || lia). f_equal. lia.
+Qed.
+
+(* ... and are queued, in order, for a subscribed one *)
+Lemma unfixed_frames_sub n : forall j k pc q h o lag, k + j <= n ->
+  run unfixed_cfg (repeat AP (2 * j)) (ust n k {| s_pc := pc; s_live := Some q; s_hist := h; s_out := o; s_lag := lag |})
+  = ust n (k + j) {| s_pc := pc; s_live := Some (q ++ map Some (seq k j)); s_hist := h; s_out := o; s_lag := lag |}.
+Proof.
+  induction j as [|j IH]; intros k pc q h o lag H.
+  - replace (k + 0) with k by lia. cbn [seq map]. rewrite app_nil_r. reflexivity.
+  - rewrite repeat_two_S, run_app, unfixed_frame by lia.
+    unfold deliver. cbn [s_live push_live s_pc s_hist s_out s_lag orb]. rewrite orb_false_r.
+    rewrite IH by lia. cbn [seq map]. rewrite <- app_assoc. cbn [app].
+    replace (k + S j) with (S k + j) by lia. reflexivity.
+Qed.
+
+Lemma init_ust n : init unfixed_cfg n 1 = ust n 0 fresh.
+Proof. reflexivity. Qed.
+
+(* the subscriber attaches inside the window of frame k: it receives every frame EXCEPT k *)
+Theorem pub_then_rec_loses_any_frame : forall n k, k < n ->
+  g_prog (final unfixed_cfg n 1 (s8_sched_for n k)) = [] /\
+  map attached (g_subs (final unfixed_cfg n 1 (s8_sched_for n k))) = [true] /\
+  map (delivered unfixed_cfg) (g_subs (final unfixed_cfg n 1 (s8_sched_for n k))) = [seq 0 k ++ seq (S k) (n - S k)].
+Proof.
+  intros n k H. unfold final, s8_sched_for. rewrite !run_app, init_ust.
+  rewrite unfixed_frames_unsub by (reflexivity || lia). cbn [Nat.add].
+  (* Pub k (nobody subscribed), subscribe, snapshot *)
+  assert (run unfixed_cfg [AP; AS 0; AS 0] (ust n k fresh) =
+          {| g_prog := Rec k :: rest PubThenRec n (S k); g_hist := seq 0 k;
+             g_subs := [{| s_pc := 2; s_live := Some []; s_hist := Some (seq 0 k); s_out := seq 0 k; s_lag := false |}] |}) as E.
+  { unfold ust, run. cbn [fold_left step g_prog]. rewrite rest_unfold by lia. reflexivity. }
+  rewrite E. clear E.
+  (* Rec k, then the remaining whole frames, then one idle producer step *)
+  replace (repeat AP (2 * (n - k))) with ([AP] ++ repeat AP (2 * (n - S k)) ++ [AP]).
+  2:{ change [AP] with (repeat AP 1). rewrite <- !repeat_app. f_equal. lia. }
+  rewrite !run_app.
+  assert (run unfixed_cfg [AP] {| g_prog := Rec k :: rest PubThenRec n (S k); g_hist := seq 0 k;
+           g_subs := [{| s_pc := 2; s_live := Some []; s_hist := Some (seq 0 k); s_out := seq 0 k; s_lag := false |}] |}
+          = ust n (S k) {| s_pc := 2; s_live := Some []; s_hist := Some (seq 0 k); s_out := seq 0 k; s_lag := false |}) as E.
+  { unfold ust, run. cbn [fold_left step g_prog g_hist g_subs]. f_equal. rewrite <- seq_snoc. reflexivity. }
+  rewrite E. clear E.
+  rewrite unfixed_frames_sub by lia. replace (S k + (n - S k)) with n by lia.
+  unfold ust. rewrite rest_nil by lia. cbn [run fold_left step g_prog app g_subs map].
+  cbn [attached s_pc Nat.leb]. repeat split.
+  unfold delivered, do_drain. cbn [s_live s_hist s_out app unfixed_cfg mk c_f]. f_equal. f_equal.
+  assert (forall l, own (map Some l) = l) as Hown.
+  { induction l as [|a l IHl]; [reflexivity|]. cbn [map own flat_map app] in *. f_equal. exact IHl. }
+  rewrite Hown. rewrite (filter_ext _ (fun j => Nat.leb k j)) by (intros j; apply keep_gt_seq).
+  rewrite filter_ge_seq. f_equal; lia.
+Qed.
